@@ -54,10 +54,12 @@ def sched_cfg(tier):
 
 def sched_params(tier):
     D, L = sched_cfg(tier)
-    ps = [P("mk", 0, 4), P("pos", 0, 2), P("cps", 0, 1), P("wphase", 0, 1), P("pphase", 0, 1), P("wdelay", 0, 1 if tier == "quick" else 2)]
-    ps += [P("f0", 0, 1), P("f1", 0, 1)]
+    ps = [P("mk", 0, 4), P("pos", 0, 2), P("cps", 0, 1), P("wphase", 0, 1), P("pphase", 0, 1), P("f0", 0, 1)]
+    if tier != "quick":
+        ps += [P("wdelay", 0, 2), P("f1", 0, 1)]
     for j in range(D):
         ps += [P(f"gap{j}", 0, L), P(f"arm{j}", 0, 4)]
+    ps.append(P("slow", 0, 1))
     return ps
 
 
@@ -68,8 +70,10 @@ def sched_fn(a, tier):
     mk, pos = pick(a["mk"], 5), pick(a["pos"], 3)
     cps, wphase = pick(a["cps"], 2), pick(a["wphase"], 2)
     pphase = 1 if mk == 3 else pick(a["pphase"], 2)  # default-name remapping happens in start() only
-    wdelay = pick(a["wdelay"], 2 if quick else 3)
-    fillers = [pick(a["f0"], 2), pick(a["f1"], 2)]
+    f0 = pick(a["f0"], 2)
+    wdelay = 1 if quick else pick(a["wdelay"], 3)
+    fillers = [f0, 1 - f0] if quick else [f0, pick(a["f1"], 2)]
+    slow = pick(a["slow"], 2)  # an application-level listener with a 1-slot queue that subscribed first and never reads
     tape = DeviationTape([(a[f"gap{j}"], a[f"arm{j}"]) for j in range(D)], L)
     env = Env()
     vals = {"match": {} if mk == 4 else object()}
@@ -94,14 +98,24 @@ def sched_fn(a, tier):
     w2 = NodeSpec(3, 0, prepare=[] if wphase == 0 else list(wait), start=list(wait) if wphase == 0 else [], alias="w2")
     pub = NodeSpec(2, 0, prepare=steps if pphase == 0 else [], start=steps if pphase == 1 else [], alias="p/special")
     noise = NodeSpec(4, 0, prepare=None, start=[("pub", "noise", object(), "default", [T])], alias="q/other")
+    # a plain-aliased sibling AFTER the slashed ones: its default-named resource must stay (T,'default')
+    plain = NodeSpec(5, 0, prepare=None, start=[("pub", "plain", object(), "default", [T])], alias="plain")
     root = NodeSpec(0, -1, prepare=[], start=[])
-    nodes = [root, w1, pub, w2, noise]
+    nodes = [root, w1, pub, w2, noise, plain]
     classes = build_classes(env, nodes)
     out = {}
 
     async def main():
-        async with Context() as ctx:
+        import warnings
+        from contextlib import AsyncExitStack
+
+        async with Context() as ctx, AsyncExitStack() as stack:
+            if slow:
+                stack.enter_context(warnings.catch_warnings())
+                warnings.simplefilter("ignore")
+                await stack.enter_async_context(ctx.resource_added.stream_events(max_queue_size=1))
             await start_component(classes[0], {}, timeout=1000)
+            out["plain_names"] = sorted(n for n, v in ctx.get_resources(T).items() if v is plain.start[0][2])
             k = symsched.kernel()
             before = k.steps
             try:
@@ -115,7 +129,7 @@ def sched_fn(a, tier):
     _, exc, k = run(main, chooser=tape)
     summary = {"match": MATCH_KINDS[mk], "match_position": pos, "fillers": [FILLERS[f] for f in fillers], "checkpoints_between": bool(cps),
                "waiters_in": ["prepare", "start"][wphase], "waiter_checkpoints_before_request": wdelay,
-               "publisher_in": ["prepare", "start"][pphase], "schedule": tape.taken}
+               "publisher_in": ["prepare", "start"][pphase], "slow_first_subscriber": bool(slow), "schedule": tape.taken}
     if exc is not None:
         lost = isinstance(exc, (TimeoutError, symsched.Deadlock))
         return FAIL(f"lost-wakeup:{MATCH_KINDS[mk]}:pos={pos}" if lost else f"startup-failed:{type(exc).__name__}",
@@ -132,6 +146,8 @@ def sched_fn(a, tier):
         return FAIL("factory-product-not-shared", env.count("factory_called"), summary)
     if out["final"] is not vals["match"]:
         return FAIL("final-lookup-differs", "", summary)
+    if out["plain_names"] != ["default"]:
+        return FAIL("plain-alias-sibling-published-under-a-foreign-name", out["plain_names"], summary)
     if "opt" in probe:
         v, steps_used, _ = probe["opt"]
         if v is not None or steps_used != 0:
@@ -146,11 +162,11 @@ SCHED = Harness(
     name="W-sched",
     fn=sched_fn,
     params=sched_params,
-    cube=lambda tier: 3,
+    cube=lambda tier: 4,
     title="two waiters, a publisher issuing matching and non-matching publications, a noise publisher; all schedule prefixes",
-    bound_text=lambda tier: "waiters for (T,'special') in prepare or start after 0-2 checkpoints; publisher (alias 'p/special') issues 3 publications, "
+    bound_text=lambda tier: "waiters for (T,'special') in prepare or start after " + ("1 checkpoint" if tier == "quick" else "0-2 checkpoints") + "; publisher (alias 'p/special') issues 3 publications, "
     "one of them matching (" + "; ".join(MATCH_KINDS) + ") at position 0-2, the others non-matching (" + "; ".join(FILLERS)
-    + "), with/without checkpoints between; a second publisher with alias 'q/other' publishes T under its remapped default name; "
+    + "), with/without checkpoints between; a second publisher with alias 'q/other' publishes T under its remapped default name and a third, plain-aliased one under 'default'; optionally an application-level listener with a 1-slot queue that subscribed first and never reads; "
     + ("FIFO schedule with ONE deviation: at any one of the first 10 decision points any other runnable task may be picked"
        if tier == "quick" else "FIFO schedule with up to TWO deviations (each within 12 decisions of the previous one), any other runnable task"),
     oracle="startup completes (no TimeoutError/deadlock = no lost wake-up); each waiter returns only after the matching publication and with "
